@@ -327,6 +327,26 @@ def eval_cases(pid, tag, header, cases_text, queries, timeout=900):
     return rc, out, res, path
 
 
+def split_list_def(text, name):
+    """Find `Definition <name> : <T> := [\n  a;\n  b\n]<scope>.` (the shape
+    vh.ListNL writes) in text.  Returns (head, items, tail) where head is
+    `Definition <name> : <T> := `, items the element strings and tail the
+    closing scope annotation + '.', or None."""
+    m = re.search(r"Definition %s : [^\n]*? := \[\n  " % re.escape(name), text)
+    if not m:
+        return None
+    start = m.end()
+    end = text.index("\n]", start)
+    tail_end = text.index(".\n", end)
+    items = text[start:end].split(";\n  ")
+    head = text[m.start():m.end() - len("[\n  ")]
+    return head, items, text[end + 2:tail_end + 1]
+
+
+def join_list_def(head, items, tail):
+    return head + "[\n  " + ";\n  ".join(items) + "\n]" + tail + "\n"
+
+
 def parse_nat_list(txt):
     """Parse 'Q = [1; 2; 3]%N : list N' (possibly wrapped) into ints; None if
     it does not look like a list value."""
